@@ -2,6 +2,8 @@
 
 package dpt
 
+import "math"
+
 func init() {
 	verifHarnesses["HarnessC19Entry"] = HarnessC19Entry
 	verifHarnesses["HarnessC19Names"] = HarnessC19Names
@@ -189,4 +191,40 @@ func HarnessC19Many(a []int) {
 		all = append(all, d)
 	}
 	verifCover("C19.many.end")
+}
+
+func init() {
+	verifHarnesses["HarnessSelfTestMaxMin"] = HarnessSelfTestMaxMin
+}
+
+// HarnessSelfTestMaxMin: the model of math.Max / math.Min against their documented special cases and
+// an if-chain, for every pair of float64 bit patterns (two symbolic 64-bit words); validated natively.
+func HarnessSelfTestMaxMin(a []int) {
+	x, y := math.Float64frombits(nondetU64()), math.Float64frombits(nondetU64())
+	mx, mn := math.Max(x, y), math.Min(x, y)
+	switch {
+	case math.IsInf(x, 1) || math.IsInf(y, 1):
+		verifAssert("self.max.inf", math.IsInf(mx, 1))
+	case x != x || y != y:
+		verifAssert("self.max.nan", mx != mx)
+	case x > y:
+		verifAssert("self.max.gt", mx == x)
+	case y > x:
+		verifAssert("self.max.lt", mx == y)
+	default:
+		verifAssert("self.max.eq", mx == x && (math.Signbit(mx) == (math.Signbit(x) && math.Signbit(y))))
+	}
+	switch {
+	case math.IsInf(x, -1) || math.IsInf(y, -1):
+		verifAssert("self.min.inf", math.IsInf(mn, -1))
+	case x != x || y != y:
+		verifAssert("self.min.nan", mn != mn)
+	case x < y:
+		verifAssert("self.min.lt", mn == x)
+	case y < x:
+		verifAssert("self.min.gt", mn == y)
+	default:
+		verifAssert("self.min.eq", mn == x && (math.Signbit(mn) == (math.Signbit(x) || math.Signbit(y))))
+	}
+	verifCover("self.maxmin.end")
 }
